@@ -8,6 +8,16 @@ COMMON_TB = [
 ]
 
 CHECKS = {
+    "C13": {
+        "id": "C13",
+        "engine": "conn",
+        "trusted_base": COMMON_TB + [
+            "modelled, not verified: NonZeroU32::checked_add (Nat with the explicit 2^32-1 bound); the socket only transports the frames whose serial field is read back",
+        ],
+        "level_text": "Proved in Lean for every history of alloc_serial / send / preset-send that does not overflow: every serial the connection issues itself is non-zero and strictly greater than every one issued before; a preset serial is used unchanged and consumes nothing; the overflow branch is characterised exactly (panic iff counter = u32::MAX; unreachable before 2^32-2 operations); every reply constructor copies the call's serial to the reply serial and its sender to the destination. Tied by random histories on a real SendConn (serial decoded from the transmitted frame at the scripted peer and compared with the value reported by write_all and with the model), thorough drives the counter to u32::MAX; reply constructors over generated headers, decoded at the peer.",
+        "level_note": "Theorems are about the Lean model (a counter); faithfulness is differential on sampled histories. 'Reported serial = transmitted serial' is checked on the implementation directly for every send of every history.",
+        "assumptions": ["the header serial field decoded by the library's own unmarshal_header is the transmitted one (independently cross-checked in C05)"],
+    },
     "C07": {
         "id": "C07",
         "engine": "lang",
